@@ -318,8 +318,10 @@ func (g *gen) field(fieldName string, fieldType types.Type) (string, error) {
 			return fmt.Sprintf("%s(%s)", g.GetFuncName(fieldType), fieldName), nil
 		case types.Int, types.Int8, types.Int16, types.Int32, types.Int64,
 			types.Uint, types.Uint8, types.Uint16, types.Uint32,
-			types.Uintptr, types.UnsafePointer, types.UntypedInt:
+			types.Uintptr, types.UntypedInt:
 			return fmt.Sprintf("uint64(%s)", fieldName), nil
+		case types.UnsafePointer:
+			return fmt.Sprintf("uint64(uintptr(%s))", fieldName), nil
 		case types.Uint64:
 			return fmt.Sprintf("%s", fieldName), nil
 		case types.Float32:
